@@ -42,14 +42,19 @@ impl Oracle for Nonces {
                 let Some((p, aad)) = &d.decoded else { continue };
                 match &p.kind {
                     PacketKind::WhoAreYou { id_nonce, .. } => {
-                        // byte-identical re-emissions do not exist for WHOAREYOU (fresh iv each time)
+                        // the log holds what the node itself emitted (network duplicates are injections,
+                        // not emissions): two emitted WHOAREYOUs with one id-nonce are a repeat, whether
+                        // or not the rest of the packet is the same
                         if let Some(prev) = id_nonces.insert(*id_nonce, d.idx) {
-                            if w.log[prev].bytes != d.bytes {
-                                return Some((
-                                    "nonce/id-nonce-repeated".into(),
-                                    format!("node {i} used the id-nonce {} in two WHOAREYOU packets (#{prev}, #{})", hex::encode(id_nonce), d.idx),
-                                ));
-                            }
+                            return Some((
+                                "nonce/id-nonce-repeated".into(),
+                                format!(
+                                    "node {i} emitted two WHOAREYOU packets (#{prev}, #{}) with the id-nonce {}{}",
+                                    d.idx,
+                                    hex::encode(id_nonce),
+                                    if w.log[prev].bytes == d.bytes { " (byte-identical packets)" } else { "" }
+                                ),
+                            ));
                         }
                     }
                     _ => {
